@@ -3,6 +3,7 @@ package main
 import (
 	"fmt"
 	"go/ast"
+	"go/token"
 	"go/types"
 	"sort"
 	"strings"
@@ -124,7 +125,27 @@ func c09StableSort(c *Check, a *Anchors) {
 			case "StableTopologicalSort":
 				n++
 				c.Fn(fb)
-				c.OK("stable-order-sources", "StableTopologicalSort@"+fnDisplay(fb), call.Pos(), "stable sort with an explicit less function")
+				// the less function must be a strict total order on the vertex keys: exactly `a < b` on its two parameters
+				strict := false
+				if len(call.Args) == 2 {
+					if fl, ok := ast.Unparen(call.Args[1]).(*ast.FuncLit); ok && fl.Type.Params.NumFields() == 2 && len(fl.Body.List) == 1 {
+						var ps []*types.Var
+						for _, fld := range fl.Type.Params.List {
+							for _, id := range fld.Names {
+								if v, ok := info.Defs[id].(*types.Var); ok {
+									ps = append(ps, v)
+								}
+							}
+						}
+						if r, ok := fl.Body.List[0].(*ast.ReturnStmt); ok && len(r.Results) == 1 && len(ps) == 2 {
+							if be, ok := ast.Unparen(r.Results[0]).(*ast.BinaryExpr); ok && be.Op == token.LSS && varOf(info, be.X) == ps[0] && varOf(info, be.Y) == ps[1] {
+								strict = true
+							}
+						}
+					}
+				}
+				c.Decide(strict, "stable-order-sources", "StableTopologicalSort@"+fnDisplay(fb), call.Pos(), "stable sort whose less function is `a < b` on the vertex keys (a strict total order)",
+					"the less function of the stable topological sort is not plain `a < b` on its parameters: if it maps distinct vertex keys to equal ones (case folding, trimming, ...) they tie and the library leaves them in map order")
 			case "BFS", "DFS", "BFSWithDepth":
 				n++
 				c.Bad("stable-order-sources", fn.Name()+"@"+fnDisplay(fb), call.Pos(), "graph traversal over adjacency maps visits neighbours in map order")
